@@ -57,6 +57,16 @@ class ShardWriterNP(ShardWriterBase):
 
             values (dict[str, npt.NDArray[np.generic]]): Attribute values.
         """
+        # Every example has to provide exactly the described attributes,
+        # otherwise the per-attribute buffers get misaligned.
+        expected_names = {
+            attribute.name
+            for attribute in self.dataset_structure.saved_data_description
+        }
+        if set(values) != expected_names:
+            raise ValueError(f"Expected values of attributes {expected_names} "
+                             f"got {set(values)}")
+
         # Just buffer all values.
         if not self._buffer:
             self._buffer = {
